@@ -132,6 +132,7 @@ def run_property(prop, tier, seed):
     assumption_scan = {}
     rewrite_counts = {}
     stubs = []
+    named_asserts = set()
 
     for r in sorted(results, key=lambda x: x.get("unit", x.get("harness", ""))):
         if r.get("backend") == "kani":
@@ -193,13 +194,18 @@ def run_property(prop, tier, seed):
                 continue
             # main
             n_cl = len(info["clauses"])
-            n_ob = n_cl + (0 if info["lemma"] else 1)
+            # obligations of a function: its named postconditions, its named assertions, its loop
+            # invariants, and one for all implicit safety conditions of the body (callee
+            # preconditions, overflow, bounds, termination)
+            n_ob = n_cl + (0 if info["lemma"] else 1) + len(info.get("named_asserts", [])) + info.get("loop_invariants", 0)
             if not relevant:
                 continue
             obligations += n_ob
             failed_labels = set()
             for f in fl:
                 cl = info["clauses"].get(f["label"])
+                if cl is None and not f["label"].startswith("safety"):
+                    named_asserts.add((fid, f["label"]))
                 props = (cl.props if (cl is not None and cl.props) else info["props"])
                 if prop not in props:
                     continue
